@@ -40,10 +40,6 @@ type stallCtl struct {
 	at      atomic.Int64  // UnixNano of the stall
 }
 
-func newStallCtl() *stallCtl {
-	return &stallCtl{stalled: make(chan struct{}), release: make(chan struct{})}
-}
-
 type stallDIO struct{ fs.DirectIO }
 
 func (d stallDIO) WriteAt(ctx context.Context, f *os.File, block []byte, off int64) (int, error) {
